@@ -484,6 +484,15 @@ def k_merge_config(run, case):
     cfg["plot_mode"] = "zy"
     cmd += ["--plot_mode", "xy"]
     cfg["align"] = True
+    # falsy config values must win as well
+    falsy = bool(rng.random() < .5)
+    if falsy:
+        cfg["align"] = False
+        cmd += ["--align"]
+        cfg["t_max_diff"] = 0
+        cmd += ["--t_max_diff", "0.5"]
+        cfg["correct_scale"] = False
+        cmd += ["--correct_scale"]
     skeys = [k for k in D if isinstance(D[k], (bool, str)) and k not in ("plot_backend", )]
     sk = skeys[rng.integers(len(skeys))]
     cfg[sk] = (not D[sk]) if isinstance(D[sk], bool) else "overridden"
@@ -497,10 +506,12 @@ def k_merge_config(run, case):
     try:
         merged = entry_points.merge_config(args)
         run.seen(case, core.digest(cfg, tool), cls=["merge_config:" + tool], sample={"config": cfg, "cmd": cmd})
-        run.check(merged.downsample == cfg["downsample"] and merged.plot_mode == "zy" and merged.align is True,
+        run.check(merged.downsample == cfg["downsample"] and merged.plot_mode == "zy" and merged.align is cfg["align"] and
+                  (not falsy or (merged.t_max_diff == 0 and merged.correct_scale is False)),
                   "config file has priority over command-line values", case,
-                  "command-line values beat the config: downsample=%r plot_mode=%r" %
-                  (merged.downsample, merged.plot_mode), key="merge_config:priority")
+                  "command-line values beat the config %r: downsample=%r plot_mode=%r align=%r t_max_diff=%r" %
+                  (cfg, merged.downsample, merged.plot_mode, merged.align, getattr(merged, "t_max_diff", None)),
+                  key="merge_config:priority")
         run.check(same_json_value(settings.SETTINGS[sk], cfg[sk]), "matching package setting overridden in memory", case,
                   "setting %s not overridden for this run" % sk, key="merge_config:settings-not-overridden")
         run.check("not_a_setting_nor_option" not in settings.SETTINGS and set(settings.SETTINGS) == set(mem_before),
